@@ -342,7 +342,15 @@ func (conn *Conn) read(ctx *Context, async bool) {
 		if err != nil {
 			err = errors.New("reading error body: " + err.Error())
 		}
-		call.done()
+		if conn.readSched != nil {
+			// With pipelining a failed call must be signalled through the
+			// same queue as successful ones, or it overtakes them.
+			conn.readSched.Schedule(func() {
+				call.done()
+			})
+		} else {
+			call.done()
+		}
 		conn.bufferPool.PutBuffer(ctx.buffer)
 		putContext(ctx)
 	default:
